@@ -94,9 +94,8 @@ class StatResult:
 
 
 class FakeFile:
-    def __init__(self, node, asked):
+    def __init__(self, node):
         self.node = node
-        self.asked = asked
         self.pos = 0
         self.closed = False
 
@@ -200,7 +199,7 @@ class FakeFS:
             raise PermissionError(13, "Permission denied")
         if mode not in ("r", "rb"):
             raise PermissionError(30, "Read-only file system")
-        return FakeFile(node, path)
+        return FakeFile(node)
 
 
 def _rebound(func, **names):
